@@ -66,5 +66,20 @@ CHECKS['C16'] = dict(
           '(bounded). Known finding F17 (Comments nodes are never walked).'),
 )
 
+CHECKS['C20'] = dict(
+    engine='E2 tables + E4',
+    level='other',
+    ref='DESIGN.md 4 (C20), 3.3',
+    technique='deductive per grammar production x indentation string: real definitions + real rules.indent/Indentator run on the node built from tagged slots, level observed on the real Indentator; induction over the tree',
+    text=('For every production and 4 indentation strings (two spaces, tab, mixed, empty) and list lengths 0..3, the node built by '
+          'the real action is printed with children as stubs: every line-starting token and every child sits at exactly '
+          's x (open braces of the node + 1 inside a case/default body), no other leading white space, braces balanced and the '
+          'Indentator level back at 0; the program production ends with exactly one newline. By induction (children print '
+          'relative to their start level and restore it) this gives the property for all programs. "other" because the '
+          'Indentator/process_layouts code is exercised rather than given SMT contracts; whole-program runs are bounded.'),
+    note=('Trusted: induction hypothesis for children; lexer token boundaries in the bounded oracle. Fixed defect: empty '
+          'indentation string (repo commit "fix: honour an empty indent_str in Indentator").'),
+)
+
 NOT_APPLICABLE = {p: PENDING for p in ['C01', 'C02', 'C03', 'C04', 'C05', 'C06', 'C07', 'C09', 'C12',
-                                        'C13', 'C14', 'C15', 'C17', 'C18', 'C19', 'C20']}
+                                        'C13', 'C14', 'C15', 'C17', 'C18', 'C19']}
